@@ -2,9 +2,12 @@
 # tools/try_mutant.sh <patch.diff> <ID> [<ID>...] — apply a seeded change to a scratch worktree of /repo,
 # run the given checks against it (KV_REPO), print their verdict lines, remove the worktree.
 # /repo itself is never touched (other work builds against it).
+# KV_MUT_BASE=<kira checkout>: start from that checkout's HEAD instead of /repo's (e.g. a fix branch that is
+# not merged into /repo yet, so that the seeded change is judged on top of the repaired tree).
 P=$(readlink -f "$1"); shift
 W=/var/tmp/kv-mut.$$
-git -C /repo worktree add -q --detach $W HEAD || exit 2
+BASE=${KV_MUT_BASE:-/repo}
+git -C $BASE worktree add -q --detach $W HEAD || exit 2
 if ! git -C $W apply "$P"; then echo "PATCH-DOES-NOT-APPLY"; git -C /repo worktree remove --force $W; exit 2; fi
 cd "$(dirname "$0")/.."
 for ID in "$@"; do
